@@ -202,7 +202,9 @@ func addErrorForms(rt *rapid.T, env *progen.Env, p *progen.Prog, used progen.Use
 		}
 		return out
 	}
-	withErr := func(rs []*progen.Type) []*progen.Type { return append(append([]*progen.Type{}, rs...), progen.ErrorT()) }
+	withErr := func(rs []*progen.Type) []*progen.Type {
+		return append(append([]*progen.Type{}, rs...), progen.ErrorT())
+	}
 	unnamed := func(ts []*progen.Type) []progen.Param {
 		var ps []progen.Param
 		for _, t := range ts {
